@@ -140,6 +140,21 @@ let () =
       | mode :: cap :: inp -> Some (show_tresult (translate_ref !e_table (z_of_int mode) (List.map z_of_int inp) (z_of_int cap)))
       | _ -> failwith "TR")
 
+(* ---- finishing code
+   FF outlen L pm...     forward:  "F inlen | inputPos | outputPos"
+   FB inlen outlen pm... backward: "F | inputPos | outputPos"                               *)
+let () =
+  reg "FF" (fun ws -> match ints ws with
+      | outlen :: l :: pm ->
+        let ((inlen, ip), op) = finish_fwd (List.map z_of_int pm) (nat_of_int outlen) (nat_of_int l) in
+        Some ("F " ^ string_of_int (int_of_z inlen) ^ " | " ^ show_zs ip ^ " | " ^ show_zs op)
+      | _ -> failwith "FF");
+  reg "FB" (fun ws -> match ints ws with
+      | inlen :: outlen :: pm ->
+        let (ip, op) = finish_back (List.map z_of_int pm) (nat_of_int inlen) (z_of_int outlen) (nat_of_int inlen) in
+        Some ("F | " ^ show_zs ip ^ " | " ^ show_zs op)
+      | _ -> failwith "FB")
+
 (* ---- scratch-buffer plan: AP exact kind srcmax destmax -> elements *)
 let () =
   reg "AP" (fun ws -> match ints ws with
